@@ -211,9 +211,6 @@ fn check_copy(t: &mut Tally, a: &str, b: &str, cnames: &[String]) {
                 return Some(Some((n.clone(), want, got)));
             }
         }
-        if pb != pa || pc != pa || pb.pattern() != pa.pattern() {
-            return Some(Some(("(equality / pattern text of the copy)".to_string(), true, [pb == pa, pc == pa, pb.pattern() == pa.pattern(), true, true])));
-        }
         Some(None)
     });
     match r {
